@@ -3,6 +3,7 @@ import re, collections
 
 BL = {'query': 'BQuery', 'rule': 'BRule', 'rule_q': 'BRuleQ', 'with_q': 'BWithQ'}
 ROWS = 2          # every query of the pool has two rows: the third `next` exhausts the generator
+NESTED = 1        # the iterator whose query nests a symbolic block and a complete evaluate() inside every advance
 
 
 class C08:
@@ -12,7 +13,7 @@ class C08:
     impl_script = 'impl_mode.py'
     rule = ("random well-bracketed histories (<= 12 steps quick, <= 30 thorough) over: enter/leave symbolic_mode, rule_mode, rule_mode(q), "
             "`with q:`; raise inside the innermost block; create / advance (yielding or exhausting) / close / drop (del + gc.collect) up to "
-            "three result iterators, and evaluate the(...) queries with one / no / several solutions (the exception handled on the spot), at any "
+            "three result iterators (one of them over a query whose condition is a user predicate that opens a symbolic block of its own and runs a complete nested evaluate() inside every advance), and evaluate the(...) queries with one / no / several solutions (the exception handled on the spot), at any "
             "point inside or outside any block; after EVERY step the mode variable, in_symbolic_mode(), the "
             "type a @symbol constructor returns, whether an operator on a variable is rejected, and the expression-stack depth are compared "
             "with the model and with the reference stack; non-trivial = the history advances an iterator inside a block and later leaves it")
@@ -72,7 +73,8 @@ class C08:
             elif k == 'create':
                 o.append(f"OCreate {op[1]}")
             elif k == 'next':
-                o.append(f"ONext {op[1]} {'true' if op[2] else 'false'}")
+                # iterator 1 belongs to a query whose condition calls a predicate that opens its own block and evaluates a query there
+                o.append(f"{'ONextP' if op[1] == NESTED else 'ONext'} {op[1]} {'true' if op[2] else 'false'}")
             elif k == 'close':
                 o.append(f"OClose {op[1]}")
             elif k == 'drop':
